@@ -88,7 +88,7 @@ func recvTypeName(fn *ssa.Function) string {
 func ruleS1S2(c *an.Ctx) {
 	p := c.P
 	fns := relationFuncs(c)
-	c.Floor("S1", "equivalence relations in equivalence.go", len(fns), 20)
+	c.Floor("S1", "equivalence relations in equivalence.go", len(fns), 10)
 	nSites := 0
 	rels := map[string]*an.Relation{}
 	relByFn := map[*ssa.Function]*an.Relation{}
@@ -117,7 +117,7 @@ func ruleS1S2(c *an.Ctx) {
 			}
 		}
 	}
-	c.Floor("S1", "pairing sites", nSites, 40)
+	c.Floor("S1", "pairing sites", nSites, 10)
 
 	// S2 coverage
 	type cov struct {
@@ -161,8 +161,8 @@ func ruleS1S2(c *an.Ctx) {
 			}
 			okR, okO := false, false
 			for _, rr := range withHelpers(rel, relByFn) {
-				okR = okR || rr.ReadsField(f, an.ClassR)
-				okO = okO || rr.ReadsField(f, an.ClassO)
+				okR = okR || rr.ReadsField(f, an.ClassR) || readsThroughAccessor(rr, f, an.ClassR)
+				okO = okO || rr.ReadsField(f, an.ClassO) || readsThroughAccessor(rr, f, an.ClassO)
 			}
 			c.Check("S2", "covers("+cv.typ+"."+fname+")@"+cv.rel, rel.Fn.Pos(), okR && okO,
 				fmt.Sprintf("the semantic field must be read from both programs (receiver side=%v, argument side=%v); a dropped clause makes differing programs compare equal", okR, okO))
@@ -191,6 +191,62 @@ func ruleS1S2(c *an.Ctx) {
 		}, func(in ssa.Instruction) bool { return an.CalleeIs(in, ce) })
 		c.Check("S2", "EquivalentCall-delegates", ec.Pos(), ok, "EquivalentCall may answer true only through CallStm.EquivalentTo")
 	}
+}
+
+// readsThroughAccessor: the relation hands a value of class c to a one-operand helper of the package
+// (a method with no further reference-typed parameter, or a function of one such parameter) that
+// reads field f from that operand - the read counts for the side the operand belongs to.  Covers
+// accessors extracted from a relation (x.disabledBinding() on both sides).
+func readsThroughAccessor(r *an.Relation, f *types.Var, c an.Class) bool {
+	found := false
+	var readsFromParam func(h *ssa.Function, d int) bool
+	readsFromParam = func(h *ssa.Function, d int) bool {
+		if h == nil || h.Blocks == nil || len(h.Params) == 0 || d > 2 {
+			return false
+		}
+		nRef := 0
+		for _, prm := range h.Params {
+			switch prm.Type().Underlying().(type) {
+			case *types.Pointer, *types.Interface, *types.Map, *types.Slice:
+				nRef++
+			}
+		}
+		if nRef != 1 {
+			return false
+		}
+		hr := an.NewRelation(h)
+		if hr.ReadsField(f, an.ClassR) {
+			return true
+		}
+		hit := false
+		an.Instrs(h, func(in ssa.Instruction) {
+			if call, ok := in.(*ssa.Call); ok {
+				if g := call.Call.StaticCallee(); g != nil && g.Pkg == h.Pkg && len(call.Call.Args) > 0 && hr.ClassOf(call.Call.Args[0])&an.ClassR != 0 {
+					if readsFromParam(g, d+1) {
+						hit = true
+					}
+				}
+			}
+		})
+		return hit
+	}
+	an.Instrs(r.Fn, func(in ssa.Instruction) {
+		call, ok := in.(*ssa.Call)
+		if !ok || found {
+			return
+		}
+		h := call.Call.StaticCallee()
+		if h == nil || h.Pkg != r.Fn.Pkg || len(call.Call.Args) == 0 {
+			return
+		}
+		if r.ClassOf(call.Call.Args[0])&c == 0 {
+			return
+		}
+		if readsFromParam(h, 0) {
+			found = true
+		}
+	})
+	return found
 }
 
 // withHelpers: rel plus the relations (same file) it calls with its own two
@@ -535,24 +591,86 @@ func ruleS5(c *an.Ctx) {
 			c.Undecided("S5", "anchor("+sp.fn+")", token.NoPos, "relation or collection field not found")
 			continue
 		}
-		// loop element: a load of an element of recv.<field> (slice) or the Next of a range over it (map)
-		var elems []ssa.Instruction
-		an.Instrs(fn, func(in ssa.Instruction) {
-			switch x := in.(type) {
-			case *ssa.UnOp:
-				if ia, ok := x.X.(*ssa.IndexAddr); ok && x.Op == token.MUL && an.LoadsField(ia.X, f) && an.RootOf(ia.X) == ssa.Value(fn.Params[0]) {
-					if _, isPhi := ia.Index.(*ssa.Phi); isPhi || true {
-						elems = append(elems, in)
+		// loop element: a load of an element of recv.<field> (slice) or the Next of a range over it (map).
+		// The loop may have been moved into a helper that receives recv.<field> as an argument.
+		isColl := func(v ssa.Value) bool { return an.LoadsField(v, f) && an.RootOf(v) == ssa.Value(fn.Params[0]) }
+		elemsIn := func(host *ssa.Function, coll func(ssa.Value) bool) []ssa.Instruction {
+			var out []ssa.Instruction
+			an.Instrs(host, func(in ssa.Instruction) {
+				switch x := in.(type) {
+				case *ssa.UnOp:
+					if ia, ok := x.X.(*ssa.IndexAddr); ok && x.Op == token.MUL && coll(ia.X) {
+						out = append(out, in)
+					}
+				case *ssa.Next:
+					if rg, ok := x.Iter.(*ssa.Range); ok && coll(rg.X) {
+						out = append(out, in)
 					}
 				}
-			case *ssa.Next:
-				if rg, ok := x.Iter.(*ssa.Range); ok && an.LoadsField(rg.X, f) && an.RootOf(rg.X) == ssa.Value(fn.Params[0]) {
-					elems = append(elems, in)
-				}
-			}
-		})
+			})
+			return out
+		}
+		host := fn
+		elems := elemsIn(fn, isColl)
 		if len(elems) == 0 {
-			c.Fail("S5", "elements-compared@"+sp.fn, fn.Pos(), "the relation no longer iterates over "+sp.typ+"."+sp.field)
+			an.Instrs(fn, func(in ssa.Instruction) {
+				call, ok := in.(*ssa.Call)
+				if !ok || len(elems) > 0 {
+					return
+				}
+				h := call.Call.StaticCallee()
+				if h == nil || h.Blocks == nil || h.Pkg != fn.Pkg {
+					return
+				}
+				for i, a := range call.Call.Args {
+					if isColl(a) && i < len(h.Params) {
+						prm := h.Params[i]
+						if es := elemsIn(h, func(v ssa.Value) bool { return v == ssa.Value(prm) }); len(es) > 0 {
+							// fn may report equality only through the helper's verdict
+							viaHelper := true
+							an.Instrs(fn, func(in2 ssa.Instruction) {
+								ret, ok := in2.(*ssa.Return)
+								if !ok {
+									return
+								}
+								v := an.RetVal(ret, 0)
+								if v == ssa.Value(call) {
+									return
+								}
+								equal := false
+								if sp.failIsNonNil {
+									equal = an.IsNil(v)
+								} else if cv, isC := v.(*ssa.Const); isC && cv.Value != nil && cv.Value.String() == "true" {
+									equal = true
+								}
+								if !equal {
+									if _, isC := v.(*ssa.Const); isC {
+										return
+									}
+								}
+								// an "equal" (or computed) verdict must be dominated by the helper saying so
+								g, _ := an.GuardedBy(ret, func(r an.Rel) bool {
+									if sp.failIsNonNil {
+										return r.Op == token.EQL && r.X == ssa.Value(call) && an.IsNil(r.Y)
+									}
+									return r.Op == token.ILLEGAL && r.Truth && r.X == ssa.Value(call)
+								})
+								// verdicts reached without running the loop at all (early outs before the call) are
+								// the relation's other clauses: only paths *after* the call matter
+								if !g && an.Reachable(fn, call, func(x ssa.Instruction) bool { return x == ssa.Instruction(ret) }) {
+									viaHelper = false
+								}
+							})
+							if viaHelper {
+								host, elems = h, es
+							}
+						}
+					}
+				}
+			})
+		}
+		if len(elems) == 0 {
+			c.Fail("S5", "elements-compared@"+sp.fn, fn.Pos(), "the relation no longer iterates over "+sp.typ+"."+sp.field+" (neither itself nor in a helper it hands the collection to and whose verdict it returns)")
 			continue
 		}
 		isElemRelOK := func(r an.Rel) bool {
@@ -586,7 +704,7 @@ func ruleS5(c *an.Ctx) {
 		}
 		for _, S := range elems {
 			// targets: the same element load again (next iteration) or a return that reports "equal"
-			w := an.Query{Fn: fn, After: S,
+			w := an.Query{Fn: host, After: S,
 				Target: func(in ssa.Instruction) bool {
 					if in == S {
 						return true
